@@ -616,3 +616,32 @@ def rule_sdid_layout(ctx):
             else:
                 ctx.holds("SDID", key, f.where(n[4]), "file slot and type fields placed as the decoder reads them (slot mask 0x%x)" % fields[20])
     ctx.floor("SDID", 3, n_sites, "(SD id constructors)")
+
+
+def rule_slot_table_copy(ctx):
+    """SLOTCOPY (C13): SD file ids are positions in the `_cdfs` table.  Whenever entries of `_cdfs` are copied into another table
+    (re-allocation in NC_reset_maxopenfiles), source and destination use the same index expression; a compacting copy
+    (`new[k++] = _cdfs[i]`) would give every open file above a free slot a new position, i.e. invalidate or redirect its id."""
+    prog = ctx.prog
+    n = 0
+    for f in prog.lib_funcs():
+        for _b, _i, st, x in f.nodes(True):
+            if x[0] != "asg" or x[1] != "=":
+                continue
+            l, r = strip(x[2]), strip(x[3])
+            if kind(l) != "idx" or kind(r) != "idx":
+                continue
+            rb = strip(r[1])
+            if not (kind(rb) == "var" and rb[1] == "_cdfs"):
+                continue
+            lb = strip(l[1])
+            if kind(lb) == "var" and lb[1] == "_cdfs":
+                continue
+            n += 1
+            key = "SLOTCOPY:%s" % f.name
+            if render(strip(l[2])) == render(strip(r[2])):
+                ctx.holds("SLOTCOPY", key, f.where(x[4]), "`%s`: positions preserved" % render(x)[:60], nontrivial=True)
+            else:
+                ctx.violated("SLOTCOPY", key, f.where(x[4]), "`%s` moves open files to new positions of the file table: the SD file ids already handed out are positions in that table" % render(x)[:70])
+    ctx.floor("SLOTCOPY", 1, n, "(copies out of the _cdfs table)")
+    return n
